@@ -134,6 +134,36 @@ pub fn check_case(ctx: &Ctx, stream: &str, idx: u64, label: &str, cfg: &WCfg, en
         Ok(Err(e)) => ctx.violation("open-failed", stream, idx, detail("second open failed", format!("{}", e))),
         Err(p) => ctx.violation("open-panic", stream, idx, detail("second open panicked", p)),
     }
+    // a share of the files is also read back from a real file (std::fs::File and BufReader<File>)
+    let h = gen::case_hash(cfg, entries);
+    if h % 25 == 0 {
+        let path = std::env::temp_dir().join(format!("vh-c01-{}-{:x}", std::process::id(), h));
+        if std::fs::write(&path, &bytes).is_ok() {
+            let r = guarded(|| -> Result<Vec<Entry>, String> {
+                let f = std::fs::File::open(&path).map_err(|e| e.to_string())?;
+                if h % 50 == 0 {
+                    let mut c = Reader::new(std::io::BufReader::new(f)).and_then(|r| r.into_cursor()).map_err(|e| format!("error: {}", e))?;
+                    scan_forward(&mut c, limit)
+                } else {
+                    let mut c = Reader::new(f).and_then(|r| r.into_cursor()).map_err(|e| format!("error: {}", e))?;
+                    let mut got = scan_backward(&mut c, limit)?;
+                    got.reverse();
+                    Ok(got)
+                }
+            });
+            let _ = std::fs::remove_file(&path);
+            ctx.count("files_read_back_from_disk", 1);
+            match r {
+                Ok(Ok(got)) => {
+                    if let Some(d) = first_diff(entries, &got) {
+                        ctx.violation("scan-from-disk-differs", stream, idx, detail("scan of the file read from disk differs from the inserted list", d));
+                    }
+                }
+                Ok(Err(e)) => ctx.violation("scan-from-disk-failed", stream, idx, detail("reading the file from disk failed", e)),
+                Err(p) => ctx.violation("scan-from-disk-failed", stream, idx, detail("reading the file from disk panicked", p)),
+            }
+        }
+    }
     ctx.sample(|| J::obj().set("case", label).set("config", cfg.render()).set("n_entries", entries.len()).set("file_bytes", bytes.len()).set("entries", gen::render_entries(entries, 3)));
 }
 
